@@ -112,6 +112,13 @@ func zzC11_verify(algoIdx, sigLen, hasherKind int) {
 	msg := nondetBytes(2)
 	h := ecdsaHasher(hasherKind)
 	sig := nondetBytes(sigLen)
+	// the range predicate on the bytes of the model themselves (before any native instance construction below)
+	rawFmt, err := SignatureFormatCheck(algo, sig)
+	verifAssert(err == nil, "format check supports ECDSA")
+	if sigLen == 64 {
+		rawRange := bAnd(bAnd(nonZeroBE(sig[:32]), nonZeroBE(sig[32:])), bAnd(lessThanBE(sig[:32], ecN[algoIdx][:]), lessThanBE(sig[32:], ecN[algoIdx][:])))
+		verifAssert(rawFmt == rawRange, "SignatureFormatCheck = (1 <= r, s < n)")
+	}
 	// the model's claim "the reference accepts this signature" is realised natively by a signature made with the
 	// reference (crypto/ecdsa on the leftmost 256 bits of the digest), so that counterexamples in which the
 	// library rejects a signature of the reference replay
@@ -166,13 +173,15 @@ func zzC11_verify(algoIdx, sigLen, hasherKind int) {
 		verifReach("verify wrong length")
 		return
 	}
+	// (the range predicate first: its counterexamples replay with the bytes of the model, whereas a counterexample of
+	// the relation needs a constructed signature, which cannot keep a particular r)
+	inRange := bAnd(bAnd(nonZeroBE(sig0[:32]), nonZeroBE(sig0[32:])), bAnd(lessThanBE(sig0[:32], ecN[algoIdx][:]), lessThanBE(sig0[32:], ecN[algoIdx][:])))
+	verifAssert(fmtOK == inRange, "SignatureFormatCheck = (1 <= r, s < n)")
+	verifAssert(bOr(fmtOK, !ok), "SignatureFormatCheck false implies Verify false")
 	digest := ecdsaHasher(hasherKind).ComputeHash(msg)
 	want := refECDSAVerify(pk.(*pubKeyECDSA).goPubKey, digest[:32], sig0[:32], sig0[32:])
 	verifAssume(refValid == want)
 	verifAssert(ok == want, "Verify = ECDSA relation on (r = sig[:32], s = sig[32:], leftmost 256 bits of the digest)")
-	inRange := bAnd(bAnd(nonZeroBE(sig0[:32]), nonZeroBE(sig0[32:])), bAnd(lessThanBE(sig0[:32], ecN[algoIdx][:]), lessThanBE(sig0[32:], ecN[algoIdx][:])))
-	verifAssert(fmtOK == inRange, "SignatureFormatCheck = (1 <= r, s < n)")
-	verifAssert(bOr(fmtOK, !ok), "SignatureFormatCheck false implies Verify false")
 	verifReach("verify")
 }
 
